@@ -62,6 +62,8 @@ def run_case(case: dict) -> dict:
             shuffle = rng.choice(_iter.shuffle_values(n_examples))
             par = rng.choice(_iter.parallelism_values(n_shards))
             process = rng.random() < 0.3
+            if iface != "tfds" and rng.random() < 0.12:
+                process = "none-some"
             if rng.random() < 0.75:
                 perturb = {"gate": rng.choice(["random", "reverse", "middle", "inorder"]),
                            "seed": rng.randrange(1 << 30)}
@@ -77,13 +79,21 @@ def run_case(case: dict) -> dict:
             obs["passes"] += 1
             obs["gated_passes"] += observation.get("gated", 0)
             obs["examples_checked"] += len(ids)
-            obs["process_record_passes"] += int(process)
+            obs["process_record_passes"] += int(bool(process))
             obs["delay_injections"] += observation.get("delay_injections", 0)
             if observation.get("gated"):
                 orders.add(tuple(observation["release_order"]))
                 obs["out_of_order_releases"] += observation["out_of_order_releases"]
                 obs["max_ready"] = max(obs["max_ready"], observation["max_ready"])
             got = Counter(ids)
+            if process == "none-some":
+                expected_none = sum(c for i, c in want.items() if i % 3 == 0)
+                obs["none_returning_transformations"] += 1
+                if observation.get("none_results") != expected_none:
+                    violations.append({"key": f"none-results-lost/{iface}{'-shuffled' if shuffle else ''}",
+                                       "msg": f"{fmt} {label}: the transformation returns None for {expected_none} "
+                                              f"examples, the pass yielded {observation.get('none_results')} None results"})
+                want = Counter({i: c for i, c in want.items() if i % 3 != 0})
             if got != want:
                 missing = list((want - got).elements())
                 extra = list((got - want).elements())
